@@ -251,6 +251,16 @@ package iavl
 //@   ensures [rank] err == nil ==> index == rank(old(view(node)), ord(key)) && 0 <= index && index <= siz(old(view(node)))
 //@   ensures [present] err == nil ==> (value != nil) == has(old(view(node)), ord(key))
 //@   ensures [value] err == nil && value != nil ==> cntOf(value) == lookup(old(view(node)), ord(key))
+//@   ensures [one-read-per-level] calls("Node).getLeftNode") + calls("Node).getRightNode") <= 1 && calls("Node).get$") <= 1
+//@   ensures [frame] nframe(old(heap(N)), heap(N), old(na))
+//@   modifies nodeDB.mtx[*], Statistics.*[*]
+//@   decreases hgt(view(node))
+
+// existence test: one child read per level, one level per step down (reads <= height)
+//@ func (*Node).has(node, t, key) (ok, err)
+//@   props C01 C11
+//@   requires node != nil && t != nil && t.ndb != nil && valid(node)
+//@   ensures [one-read-per-level] calls("Node).getLeftNode") + calls("Node).getRightNode") <= 1 && calls("Node).has$") <= 1
 //@   ensures [frame] nframe(old(heap(N)), heap(N), old(na))
 //@   modifies nodeDB.mtx[*], Statistics.*[*]
 //@   decreases hgt(view(node))
@@ -262,6 +272,7 @@ package iavl
 //@   ensures [inrange] err == nil ==> (value != nil) == isLeaf(nth(old(view(node)), index))
 //@   ensures [leaf] err == nil && value != nil ==> cntOf(key) == l_key(nth(old(view(node)), index)) && cntOf(value) == l_val(nth(old(view(node)), index))
 //@   ensures [outside] err == nil && value == nil ==> key == nil
+//@   ensures [two-reads-per-level] calls("Node).getLeftNode") <= 1 && calls("Node).getRightNode") <= 1 && calls("Node).getByIndex$") <= 1
 //@   ensures [frame] nframe(old(heap(N)), heap(N), old(na))
 //@   modifies nodeDB.mtx[*], Statistics.*[*]
 //@   decreases hgt(view(node))
@@ -499,6 +510,15 @@ package iavl
 //@   requires t != nil && (t.root != nil ==> valid(t.root))
 //@   ensures h == hgt(tview(t.root))
 
+// existence is decided by the tree itself (one descent), whatever the fast index holds
+//@ func (*ImmutableTree).Has(t, key) (ok, err)
+//@   props C01 C11
+//@   requires t != nil && (t.root != nil ==> t.ndb != nil && valid(t.root))
+//@   ensures [empty] old(t.root) == nil ==> !ok && err == nil
+//@   ensures [one-descent-of-the-tree] old(t.root) != nil ==> calls("Node).has$") == 1 && calls("ImmutableTree).") + calls("nodeDB).") == 0
+//@   ensures [frame] nframe(old(heap(N)), heap(N), old(na))
+//@   modifies nodeDB.mtx[*], Statistics.*[*]
+
 //@ func (*ImmutableTree).GetWithIndex(t, key) (index, value, err)
 //@   props C01 C11
 //@   requires t != nil && (t.root != nil ==> t.ndb != nil && valid(t.root) && siz(view(t.root)) <= 144115188075855872)
@@ -601,10 +621,30 @@ package iavl
 //@   modifies nodeDB.*[*], Statistics.*[*], immfail
 //@   allocates ImmutableTree Node NodeKey BM
 
+// reads of a proof (C11): how many root-to-leaf descents each proof builder makes. Each descent reads at most
+// one (get, has) or two (getByIndex, pathToLeaf) nodes per level — the per-level clauses of those functions —
+// so a proof costs at most h (Has) + h (GetWithIndex) + 2*2h (GetByIndex) + 2*2h (createExistenceProof) reads.
+//@ func (*ImmutableTree).GetMembershipProof(t, key) (proof, err)
+//@   props C11
+//@   nosafety
+//@   opaquecalls
+//@   ensures [one-descent] calls("createExistenceProof") <= 1 && calls("ImmutableTree).Has$") + calls("ImmutableTree).Get") + calls("Node).") + calls("Iterat") + calls("raverse") == 0
+//@   modifies *
+//@ func (*ImmutableTree).GetNonMembershipProof(t, key) (proof, err)
+//@   props C11
+//@   nosafety
+//@   opaquecalls
+//@   ensures [five-descents] calls("ImmutableTree).GetWithIndex$") <= 1 && calls("ImmutableTree).GetByIndex$") <= 2 && calls("createExistenceProof") <= 2
+//@   ensures [no-other-descent] calls("ImmutableTree).Has$") + calls("ImmutableTree).Get$") + calls("MembershipProof$") + calls("ImmutableTree).GetProof$") + calls("Node).") + calls("Iterat") + calls("raverse") == 0
+//@   modifies *
+
 //@ func (*ImmutableTree).GetProof(t, key) (proof, err)
-//@   assumed the proof construction itself is not yet under contract: isProofFor names its result
+//@   assumed the proof construction itself is not yet under contract: isProofFor names its result (the descent count below is proved on the body)
+//@   props C11
+//@   opaquecalls
 //@   requires t != nil
 //@   ensures err == nil ==> isProofFor(proof, old(tview(t.root)), ord(key))
+//@   ensures [existence-test-plus-one-builder] calls("ImmutableTree).Has$") <= 1 && calls("GetMembershipProof$") + calls("GetNonMembershipProof$") <= 1 && calls("ImmutableTree).Get$") + calls("ImmutableTree).GetWithIndex") + calls("ImmutableTree).GetByIndex") + calls("createExistenceProof") + calls("Node).") + calls("Iterat") + calls("raverse") == 0
 //@   modifies Node.hash[*], Node.leftNode[*], Node.rightNode[*], nodeDB.mtx[*], Statistics.*[*]
 
 //@ func (*MutableTree).GetVersionedProof(tree, key, version) (proof, err)
@@ -845,7 +885,7 @@ package iavl
 //@   modifies Node.hash[*]
 
 //@ func (*Node).pathToLeaf(node, t, key, version, path) (res, err)
-//@   props C03 C17
+//@   props C03 C17 C11
 //@   requires node != nil && t != nil && t.ndb != nil && path != nil && valid(node)
 //@   ensures [found] err == nil ==> res != nil && res.subtreeHeight == 0 && ord(res.key) == ord(key)
 //@   ensures [frame] nframe(old(heap(N)), heap(N), old(na))
@@ -855,6 +895,7 @@ package iavl
 //@   ensures [step-header] err == nil && old(node.subtreeHeight) != 0 ==> len(*path) > old(n0) && (*path)[old(n0)].Height == old(node.subtreeHeight) && (*path)[old(n0)].Size == old(node.size) && (*path)[old(n0)].Version == ite(old(node.nodeKey) != nil, old(node.nodeKey.version), version)
 //@   ensures [step-left] err == nil && old(node.subtreeHeight) != 0 && old(ord(key)) < old(ord(node.key)) ==> (*path)[old(n0)].Left == nil && (old(node.rightNode) != nil ==> (*path)[old(n0)].Right == old(node.rightNode.hash))
 //@   ensures [step-right] err == nil && old(node.subtreeHeight) != 0 && old(ord(key)) >= old(ord(node.key)) ==> (*path)[old(n0)].Right == nil && (old(node.leftNode) != nil ==> (*path)[old(n0)].Left == old(node.leftNode.hash))
+//@   ensures [two-reads-per-level] calls("Node).getLeftNode") <= 1 && calls("Node).getRightNode") <= 1 && calls("Node).pathToLeaf$") <= 1
 //@   modifies *path, ProofInnerNode.*[*], nodeDB.mtx[*], Statistics.*[*]
 //@   decreases hgt(view(node))
 
@@ -867,9 +908,11 @@ package iavl
 
 // an existence proof is built from the leaf the path ends in, for the key asked
 //@ func (*ImmutableTree).createExistenceProof(t, key) (proof, err)
-//@   props C03 C17
+//@   props C03 C17 C11
 //@   requires t != nil && t.root != nil && t.ndb != nil && valid(t.root)
 //@   ensures [built] err == nil ==> proof != nil
+//@   macro otherdescents = calls("ImmutableTree).Has$") + calls("ImmutableTree).Get") + calls("Node).get") + calls("Node).has") + calls("Node).pathToLeaf") + calls("Iterat") + calls("raverse")
+//@   ensures [single-descent] calls("Node).PathToLeaf$") <= 1 && otherdescents == 0
 //@   modifies *
 // the leaf op prefix is what a leaf hashes before its key: varint 0 (height), varint 1 (size), varint version
 //@ func convertVarIntToBytes(orig, buf) (r)
